@@ -706,7 +706,7 @@ def gates(m, tier):
     want = min(5, len([f for f in common.defined_functions()
                        if f.startswith('decode.py:')]))
     if len(born) < want:
-        out.append('failed decodes were born in only %d library functions '
+        out.append('advisory: failed decodes were born in only %d library functions '
                    '(%s); need %d' % (len(born), sorted(born), want))
     if m.counters.get('state_snapshots', 0) < 5:
         out.append('fewer than 5 state snapshots compared')
